@@ -17,20 +17,25 @@ from .. import storehist as sh
 from ..common import DataSet, random_canon_tree, build_tree, forest_clades, KERNELS, make_tree_dist
 
 ID = "C07"
-LEVEL = "other"
-THEOREMS = []
+LEVEL = "proof"
+THEOREMS = ["wf_init", "wf_createRootNode", "wf_createAdd", "wf_addDataPointToNode", "wf_removeDataPointFromNode", "wf_removeDataPointFromOutliers", "wf_getSubtree", "wf_removeSubtree", "wf_addSubtree", "wf_relabelNodes", "wf_update", "wf_fromDict_toDict", "wf_touch", "wf_step", "wf_reachable", "dense_step", "data_conserved", "subtree_is_clade", "labels_partition", "abs_eq_labels", "subtree_move_conserves", "dp_move_conserves"]
 BUDGET = {"quick": 100, "thorough": 900}
 SEARCH_BUDGET = 60
 EXPLANATION = (
-    "The property theorems (wf_step / wf_reachable / data_conserved over the store model "
-    "lean/PhyModel/Model/Store.lean, invariants in Proofs/StoreInv.lean) are being written by the proof slice and are "
-    "merged by the lead; until then Props/C07.lean carries an OBLIGATION-OPEN line and the level is `other`.  What this "
-    "run establishes: model and real Tree agree after every op of every generated history (see C06); the direct oracle "
-    "(one parent, reachable, single visit, maps mutually inverse and covering the graph, payload name = mapped name, "
-    "_data keys = clone names, payload set = _data list, every data point in one place, resulting tree = what the edit "
-    "should give, untouched handles bit-identical) holds on every live handle after every op of every sampler-grammar "
-    "history; every sampler invocation returns a well-formed tree on exactly the input data points; the retained path "
-    "reproduces the input tree.")
+    "Theorems (Props/C07, on the executable store model): Inv = WF (names and graph indices unique, the two maps are "
+    "exactly the payload pairs, _data keyed by clone names or the outlier key and listing each clone's payload, every "
+    "data point in one place) + Full + Aligned holds for the empty tree and is preserved by every edit operation under the "
+    "side conditions the sampler grammar guarantees (Legal: a clone is created only with fresh data in a densely named "
+    "tree; remove_subtree gets a subtree of the same tree; a graft brings no data the tree already holds) - one theorem "
+    "per operation, wf_step, wf_reachable for every legal history; data_conserved per operation, subtree_is_clade, "
+    "subtree_move_conserves / dp_move_conserves for the composed moves, labels_partition, abs_eq_labels.  Graph shape "
+    "(one parent, reachability) is structural in the model, so it is decided on the real graph by the oracle.  This run: "
+    "model and real Tree agree after every op of every generated history; the direct oracle (one parent, reachable, single "
+    "visit, maps mutually inverse and covering the graph, payload name = mapped name, _data keys = clone names, payload "
+    "set = _data list, every data point in one place, resulting tree = what the edit should give, untouched handles "
+    "bit-identical) holds after every op; every sampler invocation (burn-in SMC, PG, subtree PG, data-point, prune-regraft, "
+    "run-loop iteration) returns a well-formed tree on exactly the input data points; the retained path reproduces the input tree."
+)
 RULE = (
     "histories as for C06; sampler cases: trees from common.random_canon_tree on 1-7 data points (S 1-2, grid 2-5), "
     "proposal in {bootstrap, semi-adapted, fully-adapted}, outliers on/off, samplers built directly or through "
